@@ -209,27 +209,39 @@ def run_clear_job(prog, job):
 
 
 def run_reserve_job(prog, job):
-    """reserve(k): nothing observable changes, capacity() >= count()+k afterwards (Vec model; the std side is the Kani harness)"""
+    """reserve(k) from any INV arena with ANY capacity >= count(): nothing observable changes, capacity() >= count()+k afterwards
+    (Vec model: reserve / reserve_exact raise the capacity to the documented lower bound; the std side is the Kani harness)"""
     t0 = time.time()
     N = job['N']
     prefixes = tuple(p + '.' for p in job['props'])
-    eng, A, st, acell = base_ctx(prog, N)
+    eng = Engine(prog, max_steps=20000)
+    A = SymArena(N)
+    for c in A.inv(): eng.solver.add(c)
+    cap0 = z3.BitVec('cap0', 64)
+    eng.solver.add(z3.UGE(cap0, N), z3.ULT(cap0, BV64(1 << 40)))
+    st = State()
+    acell = st.new_cell(A.value(cap=S(cap0, 'usize')))
     res = new_result(job)
     aref = Ref(acell, ())
     pre = View(A.value())
     k = z3.BitVec('reserve_k', 64)
     eng.solver.add(z3.ULT(k, BV64(1 << 40)))
-    mv = mkviol(A, 'reserve', N)
+    def mv(m, failed):
+        d = mkviol(A, 'reserve', N)(m, failed)
+        d['args'] = {'k': m.eval(k, model_completion=True).as_long(), 'cap0': m.eval(cap0, model_completion=True).as_long()}
+        return d
     for o in call_all(eng, st, find_fn(prog, 'Arena', 'reserve'), [aref, S(k, 'usize')]):
         res['paths'] += 1; res['steps'] += o.state.steps
         if o.kind != 'return':
             check_obligations(eng, list(o.state.pc), [('C13.reserve_no_panic', F_)], prefixes, res, mv); continue
         ob = specs.arena_equal(pre, View(o.state.store[acell]), 'C13.reserve_changes_nothing')
         for o2 in call_all(eng, o.state, find_fn(prog, 'Arena', 'capacity'), [aref]):
-            if o2.kind == 'return': ob.append(('C13.reserve_room_for_k_more', z3.UGE(zb(o2.value), BV64(N) + k)))
+            if o2.kind == 'return':
+                ob.append(('C13.reserve_room_for_k_more', z3.UGE(zb(o2.value), BV64(N) + k)))
+                ob.append(('C13.reserve_never_shrinks', z3.UGE(zb(o2.value), cap0)))
         check_obligations(eng, list(o.state.pc), ob, prefixes, res, mv)
         res['nontrivial'] += 1
-    res['samples'].append({'harness': 'reserve(k), symbolic k', 'N': N})
+    res['samples'].append({'harness': 'reserve(k), symbolic k and symbolic capacity >= count()', 'N': N})
     res['feas_queries'] = eng.nq; res['solver_time'] += eng.tq; res['wall'] = time.time() - t0
     return res
 
@@ -248,6 +260,11 @@ def confirm(prop, v):
         nprobe = len(lines)
         lines += ['arena_adjacent %d' % N] + replay.construct_script(pre)
         for k_ in (1, 2, 3, 1000, 100000): lines += ['reserve %d' % k_, 'capacity_ge %d' % (N + k_)]
+        # ... and from an arena with unused capacity (the model's capacity and k, then a few fixed combinations)
+        ka = (v.get('args') or {})
+        for (c_, k_) in [(ka.get('cap0', N + 1), ka.get('k', 5))] + [(N + 1, 5), (N + 3, 4), (N + 4, 8), (2 * N + 4, N + 7)]:
+            if c_ > 1 << 20 or k_ > 1 << 20: continue
+            lines += ['arena_with_capacity %d' % c_] + replay.construct_script(pre) + ['reserve %d' % k_, 'capacity_ge %d' % (N + k_)]
         res = replay.run_script(lines, profile)
         def dump_at(k):
             r = res.get(k)
